@@ -371,7 +371,24 @@ impl CT {
         }
         false
     }
+    /// the tree as `Constraint::not` builds it (since fix 7500ca2): the negation of a comparison is
+    /// the complementary comparison, a double negation cancels; only negated and/or nodes stay
+    fn norm(&self) -> CT {
+        match self {
+            CT::Cmp(..) => self.clone(),
+            CT::And(x, y) => CT::And(Box::new(x.norm()), Box::new(y.norm())),
+            CT::Or(x, y) => CT::Or(Box::new(x.norm()), Box::new(y.norm())),
+            CT::Not(x) => match x.norm() {
+                CT::Cmp(l, op, r) => CT::Cmp(l, op.neg(), r),
+                CT::Not(c) => *c,
+                other => CT::Not(Box::new(other)),
+            },
+        }
+    }
     fn holds(&self, a: &[i64], q: Quirks, top: bool, fs: bool) -> Option<bool> {
+        self.norm().holds_n(a, q, top, fs)
+    }
+    fn holds_n(&self, a: &[i64], q: Quirks, top: bool, fs: bool) -> Option<bool> {
         match self {
             CT::Cmp(l, op, r) => {
                 if q.ne_noop && *op == Cmp::Ne && (!top || top_lin(l, r, fs).is_none()) {
@@ -389,13 +406,13 @@ impl CT {
                 }
                 Some(op.test(l.ev(a)?, r.ev(a)?))
             }
-            CT::And(x, y) => Some(x.holds(a, q, false, fs)? & y.holds(a, q, false, fs)?),
+            CT::And(x, y) => Some(x.holds_n(a, q, false, fs)? & y.holds_n(a, q, false, fs)?),
             CT::Or(x, y) => {
-                let (p, r) = (x.holds(a, q, false, fs)?, y.holds(a, q, false, fs)?);
+                let (p, r) = (x.holds_n(a, q, false, fs)?, y.holds_n(a, q, false, fs)?);
                 if q.or_and && !self.special_or() { Some(p && r) } else { Some(p || r) }
             }
             CT::Not(x) => {
-                let p = x.holds(a, q, false, fs)?;
+                let p = x.holds_n(a, q, false, fs)?;
                 Some(if q.not_ign { p } else { !p })
             }
         }
@@ -1528,6 +1545,7 @@ fn present(case: &Case) -> Present {
         match c {
             Con::Fluent { t, style } => {
                 let fs = *style == 1;
+                let t = &t.norm();
                 p.not |= t.any(&|t| matches!(t, CT::Not(_)));
                 p.or |= t.any(&|t| matches!(t, CT::Or(..)) && !t.special_or());
                 t.each_cmp(true, &mut |l, op, r, top| {
